@@ -1501,9 +1501,79 @@ func ruleM2(w *world.World, r *report.RuleResult) {
 			}
 		}
 		if m.neutral > 0 {
-			r.OK(name+"|size-neutral-update", w.Pos(fn.Pos()), "entry rewritten with the same stored value (deadline change only): size-neutral")
+			// the rewrite keeps Value and may change every other field of the entry: it is size-neutral
+			// only while the size function reads nothing but Value
+			var other []string
+			for _, f := range sizeFnReads(w) {
+				if f != "Value" {
+					other = append(other, f)
+				}
+			}
+			if len(other) == 0 {
+				r.OK(name+"|size-neutral-update", w.Pos(fn.Pos()), "entry rewritten with the same stored value (deadline change only) and the size function reads only Value: size-neutral")
+			} else {
+				r.Fail(name+"|size-neutral-update", w.Pos(fn.Pos()), fmt.Sprintf("%s rewrites a stored entry keeping its Value and does not adjust the memory counter, but the size function internal.(*KeyData).GetMem also depends on the entry's %s: an entry added with one size is later subtracted with another, so the counter drifts with the history and does not return to zero", name, strings.Join(other, ", ")))
+			}
 		}
 	}
+}
+
+// sizeFnReads: the fields of the stored entry whose value the size function reads (on its receiver,
+// directly or in module functions the receiver is handed to). unsafe.Sizeof(k.F) is a constant and
+// reads nothing.
+func sizeFnReads(w *world.World) []string {
+	gm := w.Func("internal.(*KeyData).GetMem")
+	if gm == nil || len(gm.Params) == 0 {
+		return []string{"?"}
+	}
+	set := map[string]bool{}
+	seen := map[ssa.Value]bool{}
+	var visit func(v ssa.Value, depth int)
+	visit = func(v ssa.Value, depth int) {
+		if v == nil || seen[v] || depth > 4 || v.Referrers() == nil {
+			return
+		}
+		seen[v] = true
+		for _, ref := range *v.Referrers() {
+			switch x := ref.(type) {
+			case *ssa.FieldAddr:
+				if x.X == v && x.Referrers() != nil {
+					for _, r2 := range *x.Referrers() {
+						if st, ok := r2.(*ssa.Store); ok && st.Addr == ssa.Value(x) {
+							continue
+						}
+						set[world.FieldName(x)] = true
+					}
+				}
+			case *ssa.Field:
+				if st, ok := x.X.Type().Underlying().(*types.Struct); ok && x.X == v {
+					set[world.CanonField(st.Field(x.Field))] = true
+				}
+			case *ssa.UnOp:
+				if x.Op == token.MUL && x.X == v {
+					visit(x, depth) // whole-struct copy
+				}
+			case *ssa.Phi:
+				visit(x, depth)
+			case ssa.CallInstruction:
+				if f := x.Common().StaticCallee(); f != nil && world.InModule(f) && f.Blocks != nil {
+					args := x.Common().Args
+					for i, a := range args {
+						if a == v && i < len(f.Params) {
+							visit(f.Params[i], depth+1)
+						}
+					}
+				}
+			}
+		}
+	}
+	visit(gm.Params[0], 0)
+	var out []string
+	for f := range set {
+		out = append(out, f)
+	}
+	sort.Strings(out)
+	return out
 }
 
 // ---- NM ----
